@@ -50,11 +50,16 @@ PathSafe == Letters \cup Digits \cup {"_", "$", ".", ":", "-", "/", "{"}   \* "{
 (* yes/no/on/off/y/n are booleans only for typed targets)                  *)
 YamlWords == {"true","false","null","True","False","Null","TRUE","FALSE","NULL"}
 
+(* the printable ASCII characters: everything else in a string is a non-ASCII *)
+(* character, which YAML reads as an ordinary character of a plain scalar    *)
+AsciiPrintable == Letters \cup Digits \cup {" ","!","\"","#","$","%","&","'","(",")","*","+",",","-",".","/",":",";","<","=",">","?","@",
+                                              "[","\\","]","^","_","`","{","|","}","~"}
+NonAscii(c) == c \notin AsciiPrintable
 (* the path strings on which yaml.Unmarshal is the identity (a subset) *)
 PlainPath(s) ==
   /\ Len(s) > 0
-  /\ Char(s, 1) \in Letters \cup {"_", "$"}
-  /\ \A i \in 1..Len(s) : Char(s, i) \in PathSafe
+  /\ (Char(s, 1) \in Letters \cup {"_", "$"} \/ NonAscii(Char(s, 1)))
+  /\ \A i \in 1..Len(s) : (Char(s, i) \in PathSafe \/ NonAscii(Char(s, i)))
   /\ Char(s, Len(s)) # ":"
   /\ s \notin YamlWords
 
